@@ -330,11 +330,14 @@ Proof.
     + rewrite Er. reflexivity.
 Qed.
 
+Lemma bs_norm_mk t c s b m e : bs_norm (mkKey t c s b m e) = mkKey t (spec_bs c) s b m e.
+Proof. unfold bs_norm, spec_bs. cbn [k_code k_text k_shifted k_base k_mods k_event]. destruct (c =? 8); reflexivity. Qed.
+
 Lemma decode_other_keys_roundtrip m k :
   small m = true -> small k = true -> decode_key u (other_keys_seq m k) = other_keys_spec u m k.
 Proof.
   intros Hm Hk. unfold decode_key, other_keys_seq, other_keys_spec. rewrite finish_spec. f_equal.
-  cbn [decode_pre]. unfold decode_csi. cbn [nth_error].
+  cbn [decode_pre]. unfold decode_csi. rewrite <- bs_norm_mk. f_equal. unfold decode_csi_raw. cbn [nth_error].
   unfold csi_p0. cbn [nth_error]. change (i32 27) with 27.
   change ((27 =? 1) && (126 =? 90)) with false. cbv iota.
   change (special_code 27 126) with 27.
@@ -396,6 +399,7 @@ Proof.
   destruct Hok as (Hn & Hs & Hb & Hm & He & C0 & C1 & Htx & H27 & Hbt).
   unfold decode_key, shape_seq, shape_spec. rewrite finish_spec. f_equal.
   cbn [sh_n sh_s sh_b sh_n0 sh_m sh_e sh_n1 sh_tx sh_fin decode_pre].
+  unfold decode_csi. rewrite <- bs_norm_mk. f_equal.
   unfold shape_params. cbn [sh_n sh_s sh_b sh_n0 sh_m sh_e sh_n1 sh_tx sh_fin].
   assert (Hms : -1 <= m - 1 < 2147483648) by (unfold small in Hm; lia).
   assert (Hes : -1 <= e - 1 < 2147483648) by (unfold small in He; lia).
@@ -406,7 +410,7 @@ Proof.
   rewrite <- special_code_exact.
   destruct C0 as [-> | [-> | ->]]; destruct C1 as [-> | [-> | ->]]; destruct tx as [tx|];
     cbn [Z.eqb Pos.eqb Z.leb Z.compare Pos.compare Pos.compare_cont];
-    unfold decode_csi; cbn [nth_error];
+    unfold decode_csi_raw; cbn [nth_error];
     rewrite (p0_small _ n _ fin Hn); rewrite ?(p1_small _ m _ Hm), ?(p1_small _ 0 _ H0s);
     rewrite ?(i32_small s Hs), ?(i32_small b Hb), ?(i64_small _ Hes);
     cbv zeta; cbn [k_mods k_text k_code k_shifted k_base k_event key0].
